@@ -241,7 +241,7 @@ fn check_c14(g: &G, sel: u64, mut vd: Verdict) -> Verdict {
     if pick >= g.dels.len() + rparens.len() {
         // cut inside open call parentheses: every '(' still open (the call's own, nested groups in
         // argument text, expression parentheses) gets its zero-width ')' at end of input
-        let (off, open, calls) = g.trunc_points[pick - g.dels.len() - rparens.len()];
+        let (off, open, calls, text_groups) = g.trunc_points[pick - g.dels.len() - rparens.len()];
         let m = src[..off].to_string();
         vd.key = m.clone();
         vd.label(format!("truncated-inside-parens:open={}", open.min(6)));
@@ -258,8 +258,11 @@ fn check_c14(g: &G, sel: u64, mut vd: Verdict) -> Verdict {
         let show = format!("{}⟦end of input, {open} '(' open⟧", &m[floor(&m, m.len().saturating_sub(50))..]);
         if !has_err {
             vd.violations.push(Violation::new("C14", "not-diagnosed", "not-diagnosed:MissingExpectedRParen:inside-parens", format!("expected MissingExpectedRParen at end of input (byte {exp}): {show}; errors: {:?}", r.errs.iter().map(|e| (e.k, e.b)).collect::<Vec<_>>())));
-        } else if virt != open {
-            vd.violations.push(Violation::new("C14", "no-recovery-token", "no-recovery-token:RPAREN:count", format!("{open} parentheses are open at end of input but {virt} zero-width RPAREN tokens were inserted: {show}")));
+        } else if virt > open || virt + text_groups < open {
+            // every parenthesis that is a token (a call's own, expression parentheses) gets its zero-width ')'; groups
+            // nested in argument *text* are not delimiters of a construct - the lexer closes them too, but a lexer that
+            // only closes the constructs is within the property
+            vd.violations.push(Violation::new("C14", "no-recovery-token", "no-recovery-token:RPAREN:count", format!("{open} parentheses ({text_groups} of them groups inside argument text) are open at end of input but {virt} zero-width RPAREN tokens were inserted: {show}")));
         } else {
             // every call / built-in / definition whose own ')' is missing is diagnosed (nested groups in argument text and
             // expression parentheses always get their recovery token, and sometimes a diagnostic of their own)
